@@ -19,6 +19,7 @@ var lossyDecoderPool sync.Pool
 // fInfo, mbData, slab via cacheY) are kept for reuse-or-grow in initFrame.
 func acquireDecoder() *Decoder {
 	if v := lossyDecoderPool.Get(); v != nil {
+		verifhook.Pool("lossy.decoder", true)
 		dec := v.(*Decoder)
 		// Zero mutable state — keep slice backing arrays for reuse.
 		dec.frmHdr = FrameHeader{}
